@@ -196,6 +196,7 @@ def h_own_writes(has_ann: bool, has_lbl: bool, has_status: bool, spec_v: int, wh
     vkopf.begin_path()
     c = vkopf.cell()
     which, idx = vkopf.pin('which', which), vkopf.pin('idx', idx)
+    has_lbl, has_status, prior = vkopf.pin('has_lbl', has_lbl), vkopf.pin('has_status', has_status), vkopf.pin('prior', prior)
     spec_v, retries, touch_v = vkopf.choose(spec_v, [1, 2]), vkopf.choose(retries, [0, 3]), vkopf.choose(touch_v, [-1, 0, 1])
     ps, ds = make_storages(c)
     raw = sym_body(has_ann, has_lbl, has_status, spec_v, 0)
@@ -340,8 +341,14 @@ def obligations():
     for i, (pk, dk, v1, prefix) in enumerate(combos):
         cell = {'progress': pk, 'diffbase': dk, 'v1': v1, 'prefix': prefix}
         quick = i in (0, 4)
-        obs += split(Ob('h_own_writes', cell, tiers=('quick', 'thorough') if quick else ('thorough',), timeout=900,
-                        twins=['patched'] if i == 0 else []), which=[0, 1, 2, 3, 4, 5])
+        if quick:
+            for which in range(6):
+                obs.append(Ob('h_own_writes', dict(cell, pin={'which': which, 'idx': which % 4, 'has_lbl': which % 2 == 0,
+                                                             'has_status': which % 3 == 0, 'prior': which in (1, 4, 5)}),
+                              tiers=('quick',), timeout=600))
+            if i == 0:
+                obs.append(Ob('h_own_writes', cell, tiers=('quick', 'thorough'), timeout=300, twins=['patched'], main=False))
+        obs += split(Ob('h_own_writes', cell, tiers=('thorough',), timeout=1500), which=[0, 1, 2, 3, 4, 5], idx=[0, 1, 2, 3], prior=[False, True])
         obs += split(Ob('h_noise_and_signal', cell, tiers=('quick', 'thorough') if quick else ('thorough',), timeout=900,
                         twins=['signal'] if i == 0 else []), what=[0, 3, 7, 9, 12] if quick else list(range(14)))
         if quick:
